@@ -600,8 +600,8 @@ pub fn check() -> Option<Check> {
         }),
         |c: &Case, rec: &mut Rec| body(c, rec, What::InitialDump),
     );
-    let sweep1 = prop("journal_stop_points", 3_000, 100_000, case_strategy, |c: &Case, rec: &mut Rec| body(c, rec, What::Updates));
-    let sweep2 = prop("journal_stop_twice", 600, 20_000, case_strategy, |c: &Case, rec: &mut Rec| body(c, rec, What::UpdatesTwice));
+    let sweep1 = prop("journal_stop_points", 9_000, 100_000, case_strategy, |c: &Case, rec: &mut Rec| body(c, rec, What::Updates));
+    let sweep2 = prop("journal_stop_twice", 1_800, 20_000, case_strategy, |c: &Case, rec: &mut Rec| body(c, rec, What::UpdatesTwice));
     Some(Check {
         id: "C14",
         level: "fault_enumeration",
